@@ -2,7 +2,7 @@
 the same vocabulary as vf/noderun.py (values as (type, python value): ints signed, floats as
 IEEE bit patterns).
 
-    out = run_ppci(wasm_bytes, target, calls, globals, memory, imports, timeout_s)
+    out = run_ppci(wasm_bytes, target, calls, globals, memory, imports, timeout_s, twice=False)
     out = {"status": "ok" | "killed:<SIGNAME>" | "timeout" | "exit:<n>",
            "load": None | {"exc": type, "msg", "frame"},          Module(bytes) failed
            "instantiate": None | {"exc", "msg", "frame", "trap": bool},
@@ -116,7 +116,7 @@ def host_imports():
     }
 
 
-def _child(w, wasm, target, calls, globals_, memory, imports, memlo):
+def _child(w, wasm, target, calls, globals_, memory, imports, memlo, twice=False):
     def put(kind, val):
         os.write(w, (json.dumps([kind, val]) + "\n").encode())
 
@@ -138,6 +138,8 @@ def _child(w, wasm, target, calls, globals_, memory, imports, memlo):
         put("load", None)
         try:
             inst = instantiate(m, imports=host_imports() if imports else None, target=target)
+            if twice:  # the same Module object instantiated again; the second instance is the one observed
+                inst = instantiate(m, imports=host_imports() if imports else None, target=target)
         except Exception as e:
             put("instantiate", _exc_info(e))
             return
@@ -167,7 +169,7 @@ def _child(w, wasm, target, calls, globals_, memory, imports, memlo):
         put("harness", traceback.format_exc()[-2000:])
 
 
-def run_ppci(wasm, target, calls=(), globals=None, memory=None, imports=False, timeout_s=60.0, memlo=256):
+def run_ppci(wasm, target, calls=(), globals=None, memory=None, imports=False, timeout_s=60.0, memlo=256, twice=False):
     r, w = os.pipe()
     sys.stdout.flush()
     sys.stderr.flush()
@@ -176,7 +178,7 @@ def run_ppci(wasm, target, calls=(), globals=None, memory=None, imports=False, t
         code = 0
         try:
             os.close(r)
-            _child(w, wasm, target, list(calls), globals, memory, imports, memlo)
+            _child(w, wasm, target, list(calls), globals, memory, imports, memlo, twice)
         except BaseException:
             code = 99
         finally:
